@@ -384,17 +384,19 @@ PROPS = {
                            'funds_returned_in_full_on_cancel_or_miss', 'withdrawal_pays_beneficiary_in_full',
                            'escrow_lowered_only_by_own_withdrawal_or_distribution', 'distributed_once_le_contributed', 'finalize_idempotent',
                            'gov_handlers_conserves_value', 'gov_history_conserves_value', 'distribution_conserves_value',
-                           'outsider_expiry_before_deadline_refused', 'outsider_expiry_in_voting_stage', 'boundary_vote_stays_undecided'],
+                           'distribution_refused_without_validator_record', 'expired_is_queued_for_finalisation', 'expired_finalisation_succeeds', 'endblock_finalises_expired',
+                           'outsider_expiry_before_deadline_refused', 'outsider_expiry_in_voting_stage', 'boundary_vote_stays_undecided',
+                           'expired_proposal_is_finalised_next_block', 'expired_without_vote_records_is_finalised'],
         run=run_c14, replay=replay_olh('gov'), level='proof',
         assumptions=[
             'the tally of ResultSoFar is integer arithmetic (the float percentages are only logged); Go evaluates yesPower*100, (totalPower-noPower)*100 and passPercent*totalPower in int64 while the model uses unbounded integers: total voting power below 2^63/100 (validator power is whole OLT staked). The rule as written in Go is compared every run with the rationals on all 0<=x<=total<=120, pass 1..100 (738000 points)',
             'distribution percentages enter as the integers int64(percentage*10000) computed by the harness with the same Go expression (exact for percentages with at most two decimals that are binary-representable after scaling; the awkward family 33.33/16.67/0.07 is driven through the correspondence)',
             'staking / proposal / evidence option groups are opaque in the model: an update of one of their keys is accepted iff the whole updated group validates, which in the small genesis family is never the case (Env.otherValid = false in the driver; every such proposal is predicted to be rejected at creation and the prediction is compared with the application); fee and ONS option updates are modelled exactly; no theorem constrains Env',
             'validator records, evidence status records and balances are changed by other subsystems between governance steps (ops setVals / setBal of the model); the correspondence feeds every step with the records decoded from the application at that moment',
-            'DistOK (percentages non-negative, at most 100 % in total) and OptsOK (initial funding thresholds non-negative) are hypotheses on the option record; genesis is not validated by the application (DESIGN App. C), option updates of these fields are rejected by ValidateProposal',
-            'at least one committed validator record at distribution time (else the code divides by zero, suspect S20, which belongs to C18: the model returns Res.crash)',
+            'DistOK (percentages non-negative, at most 100 % in total), OptsOK (initial funding thresholds non-negative) and VotingOK (voting periods non-negative) are hypotheses on the option record; genesis is not validated by the application (DESIGN App. C), option updates of these fields are rejected by ValidateProposal',
+            'without a committed validator record a distribution is refused (ErrGettingValidatorList, the proposal is marked finalise-failed and keeps its escrow): an error branch of the model, theorem distribution_refused_without_validator_record; expired_finalisation_succeeds / endblock_finalises_expired therefore assume one validator record',
         ],
-        model_limits='one model step = one handler execution with the fee as an input (price x gas used, read from the DeliverTx response); signatures, fee-price validation and gas metering belong to C04/C09; Validate is modelled for the amount signs and the validator check only; headline / description strings are not modelled; a fund or vote key deleted and re-created inside one block is modelled as freshly uncommitted (unreachable: records are deleted only at finalisation); EndBlock expiry / finalisation order across different proposals is the key order of the internal queue store (modelled by sorting ids); the internal queue itself is not observable and is tied through its effect at EndBlock (the `end` step receives the items as of BeginBlock); branches never reached by the generator because earlier checks exclude them: statusNotCompleted, finalize-time invalidOptions / finalizeConfigUpdateFailed, configuration update failing validation at finalisation, gettingValidatorList, DeleteAllFunds error; a failed fee step (reached only by an almost empty payer) is reproduced with the price of one gas unit as the lower bound of the charge, because a failed transaction does not report its gas. Observation outside the safety statements proved here: a proposal that expires with its goal met is never queued for finalisation and a public PROPOSAL_FINALIZE fails on its undecided tally, while withdrawal is refused because the goal was met: its escrow stays in the fund store for good (counter expired_proposals_with_escrow_locked)'),
+        model_limits='one model step = one handler execution with the fee as an input (price x gas used, read from the DeliverTx response); signatures, fee-price validation and gas metering belong to C04/C09; Validate is modelled for the amount signs and the validator check only; headline / description strings are not modelled; a fund or vote key deleted and re-created inside one block is modelled as freshly uncommitted (unreachable: records are deleted only at finalisation); EndBlock expiry / finalisation order across different proposals is the key order of the internal queue store (modelled by sorting ids); the internal queue itself is not observable and is tied through its effect at EndBlock (the `end` step receives the items as of BeginBlock); branches never reached by the generator because earlier checks exclude them: statusNotCompleted, finalize-time invalidOptions / finalizeConfigUpdateFailed, configuration update failing validation at finalisation, gettingValidatorList, DeleteAllFunds error; a failed fee step (reached only by an almost empty payer) is reproduced with the price of one gas unit as the lower bound of the charge, because a failed transaction does not report its gas.'),
     'C10': dict(
         lean_modules=['OLP.Props.C10'], namespaces=['OLP.Props.C10'],
         required_theorems=['heap_pop_sorted', 'updates_sorted_by_pubkey', 'positive_update_rule', 'at_most_top_count', 'prefers_higher_stake',
